@@ -106,34 +106,72 @@ fn plain_int(v: &Value, st: &mut Style) -> String {
     st.int(num(v))
 }
 
+fn doc_attr(line: &str, inner: bool, st: &mut Style) -> String {
+    let plain_ok = !line.contains('\n') && !line.contains('\r');
+    // `///x` can only express lines without a leading '/' ("////" is a plain comment)
+    if plain_ok && !line.starts_with('/') && st.coin() {
+        format!("{}{}\n", if inner { "//!" } else { "///" }, line)
+    } else {
+        format!("{}doc{}={}{}]\n", if inner { "#![" } else { "#[" }, st.ws(), st.ws(), lit_str(line))
+    }
+}
+
 fn docs(out: &mut String, d: &Value, inner: bool, st: &mut Style) {
     for line in arr(d) {
-        let line = s(line);
-        let plain_ok = !line.contains('\n') && !line.contains('\r');
-        // `///x` can only express lines without a leading '/' ("////" is a plain comment)
-        if plain_ok && !line.starts_with('/') && st.coin() {
-            out.push_str(if inner { "//!" } else { "///" });
-            out.push_str(line);
-            out.push('\n');
+        let t = doc_attr(s(line), inner, st);
+        out.push_str(&t);
+    }
+}
+
+/// documentation lines (order kept) interleaved with the other attributes (order and
+/// bracket grouping randomised when a style is active)
+fn attrs_with_docs(out: &mut String, d: &Value, attrs: &[String], st: &mut Style) {
+    let mut attrs: Vec<String> = attrs.to_vec();
+    if st.rng.is_some() {
+        // shuffle
+        for i in (1..attrs.len()).rev() {
+            let j = st.pick(i + 1);
+            attrs.swap(i, j);
+        }
+    }
+    // group into brackets
+    let mut groups: Vec<String> = vec![];
+    let mut cur: Vec<String> = vec![];
+    for a in attrs {
+        cur.push(a);
+        if !st.coin() {
+            groups.push(format!("#[{}]{}\n", cur.join(", "), st.ws()));
+            cur.clear();
+        }
+    }
+    if !cur.is_empty() {
+        groups.push(format!("#[{}]\n", cur.join(", ")));
+    }
+    let doc_lines: Vec<String> = arr(d).iter().map(|l| doc_attr(s(l), false, st)).collect();
+    // merge keeping both internal orders
+    let (mut i, mut j) = (0, 0);
+    while i < doc_lines.len() || j < groups.len() {
+        let take_doc = if i >= doc_lines.len() {
+            false
+        } else if j >= groups.len() {
+            true
+        } else if st.rng.is_some() {
+            st.coin()
         } else {
-            out.push_str(if inner { "#![" } else { "#[" });
-            out.push_str(&format!("doc{}={}{}]\n", st.ws(), st.ws(), lit_str(line)));
+            true
+        };
+        if take_doc {
+            out.push_str(&doc_lines[i]);
+            i += 1;
+        } else {
+            out.push_str(&groups[j]);
+            j += 1;
         }
     }
 }
 
 fn attr_list(out: &mut String, attrs: &[String], st: &mut Style) {
-    if attrs.is_empty() {
-        return;
-    }
-    if st.coin() {
-        out.push_str(&format!("#[{}]{}", attrs.join(", "), st.ws()));
-    } else {
-        for a in attrs {
-            out.push_str(&format!("#[{a}]{}", st.ws()));
-        }
-    }
-    out.push('\n');
+    attrs_with_docs(out, &Value::Null, attrs, st);
 }
 
 fn vis(v: &Value) -> &'static str {
@@ -145,7 +183,6 @@ fn vis(v: &Value) -> &'static str {
 }
 
 fn func(out: &mut String, f: &Value, st: &mut Style) {
-    docs(out, &f["doc"], false, st);
     let mut attrs = vec![];
     if is_some(&f["addr"]) {
         attrs.push(format!("address({})", st.int(num(&f["addr"]))));
@@ -156,7 +193,7 @@ fn func(out: &mut String, f: &Value, st: &mut Style) {
     if !s(&f["cc"]).is_empty() {
         attrs.push(format!("calling_convention({})", lit_str(s(&f["cc"]))));
     }
-    attr_list(out, &attrs, st);
+    attrs_with_docs(out, &f["doc"], &attrs, st);
     out.push_str(&format!("{}fn {}(", vis(&f["vis"]), s(&f["name"])));
     let args: Vec<String> = arr(&f["args"])
         .iter()
@@ -185,7 +222,6 @@ fn flags(d: &Value, attrs: &mut Vec<String>) {
 }
 
 fn type_def(out: &mut String, d: &Value, st: &mut Style) {
-    docs(out, &d["doc"], false, st);
     let mut attrs = vec![];
     for (k, a) in [("size", "size"), ("align", "align"), ("singleton", "singleton")] {
         if is_some(&d[k]) {
@@ -193,7 +229,7 @@ fn type_def(out: &mut String, d: &Value, st: &mut Style) {
         }
     }
     flags(d, &mut attrs);
-    attr_list(out, &attrs, st);
+    attrs_with_docs(out, &d["doc"], &attrs, st);
     out.push_str(&format!("{}type {}", vis(&d["vis"]), s(&d["name"])));
     let fields = arr(&d["fields"]);
     let has_vft = d["vft"]["has"].as_bool() == Some(true);
@@ -205,7 +241,6 @@ fn type_def(out: &mut String, d: &Value, st: &mut Style) {
     let mut stmts: Vec<String> = vec![];
     for f in fields {
         let mut t = String::new();
-        docs(&mut t, &f["doc"], false, st);
         let mut attrs = vec![];
         if is_some(&f["addr"]) {
             attrs.push(format!("address({})", st.int(num(&f["addr"]))));
@@ -213,7 +248,7 @@ fn type_def(out: &mut String, d: &Value, st: &mut Style) {
         if f["base"].as_bool() == Some(true) {
             attrs.push("base".to_string());
         }
-        attr_list(&mut t, &attrs, st);
+        attrs_with_docs(&mut t, &f["doc"], &attrs, st);
         t.push_str(&format!(
             "{}{}{}:{}{}",
             vis(&f["vis"]),
@@ -226,9 +261,11 @@ fn type_def(out: &mut String, d: &Value, st: &mut Style) {
     }
     if has_vft {
         let mut t = String::new();
+        let mut attrs = vec![];
         if is_some(&d["vft"]["size"]) {
-            t.push_str(&format!("#[size({})]\n", st.int(num(&d["vft"]["size"]))));
+            attrs.push(format!("size({})", st.int(num(&d["vft"]["size"]))));
         }
+        attrs_with_docs(&mut t, &d["vft"]["doc"], &attrs, st);
         t.push_str("vftable {\n");
         let fs = arr(&d["vft"]["funcs"]);
         for (i, f) in fs.iter().enumerate() {
@@ -254,13 +291,12 @@ fn type_def(out: &mut String, d: &Value, st: &mut Style) {
 }
 
 fn enum_def(out: &mut String, d: &Value, st: &mut Style) {
-    docs(out, &d["doc"], false, st);
     let mut attrs = vec![];
     if is_some(&d["singleton"]) {
         attrs.push(format!("singleton({})", st.int(num(&d["singleton"]))));
     }
     flags(d, &mut attrs);
-    attr_list(out, &attrs, st);
+    attrs_with_docs(out, &d["doc"], &attrs, st);
     out.push_str(&format!(
         "{}enum {}{}:{}{} {{\n",
         vis(&d["vis"]),
@@ -271,10 +307,8 @@ fn enum_def(out: &mut String, d: &Value, st: &mut Style) {
     ));
     let vars = arr(&d["vars"]);
     for (i, v) in vars.iter().enumerate() {
-        docs(out, &v["doc"], false, st);
-        if v["dflt"].as_bool() == Some(true) {
-            out.push_str("#[default] ");
-        }
+        let vattrs: Vec<String> = if v["dflt"].as_bool() == Some(true) { vec!["default".to_string()] } else { vec![] };
+        attrs_with_docs(out, &v["doc"], &vattrs, st);
         out.push_str(s(&v["name"]));
         if is_some(&v["val"]) {
             out.push_str(&format!("{}={}{}", st.ws(), st.ws(), st.int(num(&v["val"]))));
